@@ -35,9 +35,17 @@ BatchOnlyT == /\ Ev.op = "batchonly" /\ VerifyBatchOnly
 CachedT == /\ Ev.op = "cachedverify" /\ Ev.res = Ev.single
            /\ UNCHANGED bvars
 
+Step == NewT \/ AddT \/ ForceT \/ ResetT \/ VerifyT \/ BatchOnlyT \/ CachedT
+\* a rejected event is reported and the rest of ITS history is skipped: validation resumes at the next "new"
+\* event, so one defect does not leave the remainder of the shard unexamined
+NextNew == LET js == {j \in (l + 1)..Len(Trace) : Trace[j].op = "new"} IN IF js = {} THEN Len(Trace) + 1 ELSE CHOOSE j \in js : \A k \in js : j <= k
 TraceInit == l = 1 /\ Init
 TraceNext == /\ l <= Len(Trace)
-             /\ l' = l + 1
-             /\ (NewT \/ AddT \/ ForceT \/ ResetT \/ VerifyT \/ BatchOnlyT \/ CachedT)
+             /\ \/ l' = l + 1 /\ Step
+                \/ /\ ~ENABLED Step
+                   /\ PrintT(<<"REJECT", l, Ev.seq>>)
+                   /\ l' = NextNew
+                   /\ entries' = <<>> /\ anyInvalid' = FALSE /\ anyCofactorless' = FALSE /\ anyNotExpanded' = FALSE
+                   /\ out' = <<"none">>
 Spec == TraceInit /\ [][TraceNext]_<<l, bvars>>
 =============================================================================
